@@ -19,6 +19,13 @@ gate by gate (equal JSON id > 0 = one object, harness/circ.py build_qc) and thro
 text) and circuits whose qubits carry user-chosen names (the decompiler names qubits q{index} whatever they are
 called).  Wide circuits are judged on every assignment of the qubits a section involves (wires of its gates, keys
 and symbols of its expressions; more than 10 of them: a fixed sample), the others 0.
+
+HISTORIES on one object (`history_cases`, `random_history_cases`, `check_containers`): the same Decompiler object used
+for 2, 3, 5 circuits in a row (same circuit / same QCircuit object again, other circuits, qubit counts, names, an
+empty circuit or a call that raises in between, the QCircuit object grown in place, the result emptied by the
+caller), two or three Decompiler objects interleaved.  Every call is judged like a single case and compared with
+the (stateless) model; in addition it must equal what a new Decompiler() returns on an equal circuit, and the result
+of every earlier call is read again after every later call and must not have changed.
 """
 from __future__ import annotations
 
@@ -107,8 +114,17 @@ def code_decompile(n, gates, opts=None):
         res = Decompiler().decompile(qc)
     except Exception as e:  # noqa
         return {"error": str(e), "etype": type(e).__name__}
+    return result_json(res, len(qc.gates) + 3)
+
+
+def result_json(res, limit=None):
+    """what a DecompilerResults object says right now (read through its public iteration).  A circuit of g gates has
+    at most g classical runs: reading stops after `limit` = g + 3 sections (a result that keeps growing from call to
+    call is wrong from its first surplus section on; reading all of it every time would only make the run quadratic)"""
     secs = []
     for s in res:
+        if limit is not None and len(secs) >= limit:
+            return {"sections": secs, "more_sections_not_read": True}
         exps = []
         for k, e in s.expressions:
             exps.append([getattr(k, "name", repr(k)), bexp.to_json(e)])
@@ -484,6 +500,8 @@ def canon_out(n, out):
         if n > FULL:
             d["qubits"] = used
         secs.append(d)
+    if out.get("more_sections_not_read"):
+        return {"sections": secs, "more_sections_not_read": True}
     return {"sections": secs}
 
 
@@ -499,14 +517,22 @@ def active_quirks(ctx):
     return sorted({f["quirk"] for f in ctx.findings if f.get("status", "open") == "open" and f.get("_active") and f.get("quirk")})
 
 
-def check_batch(ctx, res, cases, bucket):
-    """run code + oracle + model on a batch of (n, gates)"""
+def malformed(n, gates):
+    """a gate on a qubit the circuit does not have (QCircuit.append lets index == num_qubits through): outside the
+    property; only the histories use such circuits, as a call that raises in the middle of the work"""
+    return any(i >= n or i < 0 for d in gates for i in d["w"])
+
+
+def check_batch(ctx, res, cases, bucket, outs=None, wrap=None):
+    """run code + oracle + model on a batch of (n, gates).  `outs`: the code's results when they were obtained
+    elsewhere (the calls of a history), `wrap[i]`: what to add to the i-th case (history, call number)"""
     quirks = active_quirks(ctx)
     fid = {f["quirk"]: f["id"] for f in ctx.findings if f.get("status", "open") == "open" and f.get("_active")}
     cases = [c if len(c) == 3 else (c[0], c[1], None) for c in cases]
-    outs = []
-    for n, gates, opts in cases:
-        outs.append(code_decompile(n, gates, opts))
+    if outs is None:
+        outs = []
+        for n, gates, opts in cases:
+            outs.append(code_decompile(n, gates, opts))
     reqs = []
     for n, gates, opts in cases:
         reqs.append(dict(op="c11.decompile", n=n, gates=gates, quirks=quirks))
@@ -532,9 +558,17 @@ def check_batch(ctx, res, cases, bucket):
                 res.disagree(case, "the circuit the library's composition API builds is not the gate list the recipe denotes",
                              code=opts["api_mismatch"])
         nontrivial = sum(1 for d in gates if kind(d) == "cl") >= 1 and len(gates) >= 2
-        res.count({k: v for k, v in case.items() if k != "gates_json"} if (opts or nshared) else dict(n=n, gates=case["gates"]),
-                  nontrivial=nontrivial, bucket=bucket)
-        verdict = judge(n, gates, out)
+        pre = ""
+        if wrap is not None:
+            case.update(wrap[idx])
+            pre = f"call {wrap[idx]['call']} of the history: "
+            res.count(dict(history=wrap[idx]["history"]["label"], call=wrap[idx]["call"], n=n, gates=case["gates"]),
+                      nontrivial=nontrivial, bucket=bucket)
+        else:
+            res.count({k: v for k, v in case.items() if k != "gates_json"} if (opts or nshared) else dict(n=n, gates=case["gates"]),
+                      nontrivial=nontrivial, bucket=bucket)
+        bad_wires = malformed(n, gates)
+        verdict = None if bad_wires else judge(n, gates, out)
         c_code = canon_out(n, out)
         m_quirk = m_none = None
         if replies is not None:
@@ -544,9 +578,9 @@ def check_batch(ctx, res, cases, bucket):
             else:
                 m_quirk, m_none = canon_out(n, rq), canon_out(n, rn)
                 if m_quirk != c_code:
-                    res.disagree(case, "model (with the active quirks) and code differ", code=c_code, model=m_quirk)
+                    res.disagree(case, pre + "model (with the active quirks) and code differ", code=c_code, model=m_quirk)
                 # the repaired model must satisfy the property (it is what the theorems are about)
-                v_none = judge(n, gates, rn)
+                v_none = None if bad_wires else judge(n, gates, rn)
                 if v_none is not None:
                     res.disagree(case, "the repaired model violates the oracle: " + v_none[0], model=m_none)
         if verdict is None:
@@ -562,7 +596,360 @@ def check_batch(ctx, res, cases, bucket):
         if attributed:
             res.known(attributed)
         else:
-            res.violation(case, what, code=c_code, expected=expected)
+            res.violation(case, pre + what, code=c_code, expected=expected)
+
+
+# ------------------------------------------------------------------ histories on one object
+#
+# history = {label, circuits: [{n, gates, names?, recipe?}], steps: [step]},
+# step    = {inst: i, circ: j, slot?: s, add?: [gates], scribble?: true}
+#   inst      which Decompiler object makes the call (created at its first step, then kept)
+#   circ      the circuit; without `slot` a new QCircuit object is built for the call
+#   slot      a QCircuit object that is kept: built from `circ` at the slot's first step, the SAME object is passed
+#             again at its later steps, after `add` (gates appended to it in place, through QCircuit.append)
+#   scribble  after the call's result has been read, the caller empties the object it got (its section list, and
+#             the gate / expression lists of the sections): a later call must not hand this object out again
+
+def hist_build(c, adds=()):
+    qc = circ.build_api(c["recipe"]) if c.get("recipe") else circ.build_qc(c["n"], c["gates"], names=c.get("names"))
+    hist_append(qc, adds)
+    return qc
+
+
+def hist_append(qc, gates):
+    for d in gates:
+        qc.append(circ.make_gate(d), list(d["w"]), circ._param(d))
+
+
+def safe_json(r, limit=None):
+    try:
+        return result_json(r, limit)
+    except Exception as e:  # noqa
+        return {"error": "reading the result raised " + type(e).__name__ + ": " + str(e), "etype": type(e).__name__}
+
+
+def scribble(r):
+    try:
+        for s in list(r):
+            s.gates.clear()
+            s.expressions.clear()
+            s.index = (-7, -7)
+        r.sections.clear()
+    except Exception:  # noqa
+        pass
+
+
+def run_history(h):
+    """play a history on the real code.  Per call: the circuit it was about (n, gates as the harness denotes them,
+    opts), what the result said right after the call, what a NEW Decompiler says about an equal, newly built
+    circuit, and whether the result object said something else after a later call"""
+    from qlasskit.decompiler import Decompiler
+
+    insts, slots, calls = {}, {}, []
+    for k, st in enumerate(h["steps"]):
+        c = h["circuits"][st["circ"]]
+        s = st.get("slot")
+        if s is None:
+            adds = []
+            qc = hist_build(c)
+        elif s not in slots:
+            adds = []
+            slots[s] = [hist_build(c), c, adds]
+            qc = slots[s][0]
+        else:
+            qc, c, adds = slots[s]
+            hist_append(qc, st.get("add") or [])
+            adds.extend(dict(d, id=0) for d in (st.get("add") or []))
+        gates = list(c["gates"]) + list(adds)
+        call = dict(n=c["n"], gates=gates, opts=dict(names=c.get("names")) if c.get("names") else None, obj=None,
+                    changed=None, same_object_as=[])
+        try:
+            if st["inst"] not in insts:
+                insts[st["inst"]] = Decompiler()
+            r = insts[st["inst"]].decompile(qc)
+            call["obj"] = r
+            call["out"] = safe_json(r, len(gates) + 3)
+        except Exception as e:  # noqa
+            call["out"] = {"error": str(e), "etype": type(e).__name__}
+        # a new object on an equal circuit
+        try:
+            r2 = Decompiler().decompile(hist_build(c, adds))
+            call["fresh"] = safe_json(r2, len(gates) + 3)
+        except Exception as e:  # noqa
+            call["fresh"] = {"error": str(e), "etype": type(e).__name__}
+        # what the earlier calls' results say now
+        for j, cj in enumerate(calls):
+            if cj["obj"] is None or cj["changed"] is not None or cj.get("scribbled"):
+                continue
+            now = safe_json(cj["obj"], len(cj["gates"]) + 3)
+            if now != cj["out"]:
+                cj["changed"] = dict(after_call=k, now=now)
+        for j, cj in enumerate(calls):
+            if cj["obj"] is not None and call["obj"] is not None:
+                a, b = cj["obj"], call["obj"]
+                if a is b or getattr(a, "sections", 1) is getattr(b, "sections", 2) or \
+                        ({id(x) for x in getattr(a, "sections", [])} & {id(x) for x in getattr(b, "sections", [])}):
+                    call["same_object_as"].append(j)
+        if st.get("scribble") and call["obj"] is not None:
+            scribble(call["obj"])
+            call["scribbled"] = True
+        calls.append(call)
+    return calls
+
+
+def hist_verdicts(calls):
+    """history-level part of the oracle: [(call, what, info)].  (Each call's result is judged against its own
+    circuit by `judge` like any single case.)"""
+    bad = []
+    for k, c in enumerate(calls):
+        if canon_free(c["out"]) != canon_free(c["fresh"]):
+            bad.append((k, f"call {k} of the history: a Decompiler object that was used before returns something else than a new "
+                           "Decompiler() does on an equal circuit", dict(used_object=c["out"], new_object=c["fresh"],
+                                                                         result_object_shared_with_calls=c["same_object_as"])))
+        if c["changed"] is not None:
+            bad.append((k, f"the result of call {k} of the history says something else after call {c['changed']['after_call']}",
+                        dict(right_after_the_call=c["out"], later=c["changed"]["now"])))
+    return bad
+
+
+def canon_free(out):
+    return {"error": out["error"]} if "error" in out else out
+
+
+def check_histories(ctx, res, hists, bucket):
+    """all calls of all histories through check_batch (per-call oracle, model <-> code, attribution), then the
+    history-level oracle"""
+    cases, outs, wrap, per = [], [], [], []
+    for h in hists:
+        calls = run_history(h)
+        hj = dict(label=h["label"], circuits=h["circuits"], steps=h["steps"])
+        for k, c in enumerate(calls):
+            cases.append((c["n"], c["gates"], c["opts"]))
+            outs.append(c["out"])
+            wrap.append(dict(history=hj, call=k))
+        per.append((hj, calls))
+        x = res.extra.setdefault("histories", dict(histories=0, calls=0, by_number_of_calls={}, by_number_of_objects={},
+                                                   by_feature={}))
+        x["histories"] += 1
+        x["calls"] += len(calls)
+        for key, v in (("by_number_of_calls", len(calls)), ("by_number_of_objects", len({s["inst"] for s in h["steps"]}))):
+            x[key][str(v)] = x[key].get(str(v), 0) + 1
+        for f in hist_features(h):
+            x["by_feature"][f] = x["by_feature"].get(f, 0) + 1
+    check_batch(ctx, res, cases, bucket, outs=outs, wrap=wrap)
+    for hj, calls in per:
+        for k, what, info in hist_verdicts(calls):
+            c = calls[k]
+            res.violation(dict(n=c["n"], gates=[[d["c"], d["w"]] for d in c["gates"]], gates_json=c["gates"], history=hj, call=k),
+                          what, **info)
+
+
+def hist_features(h):
+    fs = set()
+    cs, steps = h["circuits"], h["steps"]
+    seq = [(s["circ"], json.dumps(s.get("add") or [])) for s in steps]
+    if any(seq[i][0] == seq[j][0] for i in range(len(seq)) for j in range(i)):
+        fs.add("a circuit decompiled again")
+    if len({s["circ"] for s in steps}) > 1:
+        fs.add("different circuits")
+    if len({cs[s["circ"]]["n"] for s in steps}) > 1:
+        fs.add("different qubit counts")
+    if any(not cs[s["circ"]]["gates"] for s in steps):
+        fs.add("empty circuit")
+    if any(cs[s["circ"]]["gates"] and not expected_runs(cs[s["circ"]]["gates"]) for s in steps):
+        fs.add("circuit without a classical gate")
+    if any(cs[s["circ"]].get("names") for s in steps):
+        fs.add("user-chosen qubit names")
+    if any(cs[s["circ"]].get("recipe") for s in steps):
+        fs.add("circuit built through the composition API")
+    if any(malformed(cs[s["circ"]]["n"], cs[s["circ"]]["gates"]) for s in steps):
+        fs.add("a call that raises (gate on a missing qubit)")
+    if any(s.get("slot") is not None for s in steps):
+        fs.add("same QCircuit object passed again")
+    if any(s.get("add") for s in steps):
+        fs.add("QCircuit object extended in place between calls")
+    if any(s.get("scribble") for s in steps):
+        fs.add("caller empties a result it got")
+    insts = [s["inst"] for s in steps]
+    if len(set(insts)) > 1:
+        fs.add("two or more Decompiler objects interleaved")
+    if any(insts[i] in insts[:i] for i in range(len(insts))):
+        fs.add("one Decompiler object used again")
+    return sorted(fs)
+
+
+def mk_history(label, circuits, steps):
+    """circuits: {key: (n, gates[, opts])}, steps: [(inst, key[, {slot, add, scribble}])]"""
+    keys, cs, st = {}, [], []
+    for s in steps:
+        inst, key = s[0], s[1]
+        extra = s[2] if len(s) > 2 else {}
+        if key not in keys:
+            c = circuits[key]
+            o = (c[2] if len(c) > 2 else None) or {}
+            d = dict(n=c[0], gates=c[1])
+            if o.get("names"):
+                d["names"] = o["names"]
+            if o.get("recipe"):
+                d["recipe"] = o["recipe"]
+            keys[key] = len(cs)
+            cs.append(d)
+        st.append(dict(inst=inst, circ=keys[key], **extra))
+    return dict(label=label, circuits=cs, steps=st)
+
+
+def history_shapes(r2_add):
+    S0, SCR = dict(slot=0), dict(scribble=True)
+    return [
+        ("same circuit twice", [(0, "a"), (0, "a")]),
+        ("same QCircuit object twice", [(0, "a", S0), (0, "a", S0)]),
+        ("a b", [(0, "a"), (0, "b")]),
+        ("b a", [(0, "b"), (0, "a")]),
+        ("a b a", [(0, "a"), (0, "b"), (0, "a")]),
+        ("b empty a", [(0, "b"), (0, "empty"), (0, "a")]),
+        ("empty a empty", [(0, "empty"), (0, "a"), (0, "empty")]),
+        ("a separators-only b", [(0, "a"), (0, "seps"), (0, "b")]),
+        ("b barriers-only b", [(0, "b"), (0, "nops"), (0, "b")]),
+        ("a b c a b", [(0, "a"), (0, "b"), (0, "c"), (0, "a"), (0, "b")]),
+        ("b five times", [(0, "b")] * 5),
+        ("a empty b empty(1 qubit) c", [(0, "a"), (0, "empty"), (0, "b"), (0, "empty1"), (0, "c")]),
+        ("c(5 qubits) a(3 qubits)", [(0, "c"), (0, "a")]),
+        ("a c one(1 qubit)", [(0, "a"), (0, "c"), (0, "one")]),
+        ("two objects: a|b|a|b", [(0, "a"), (1, "b"), (0, "a"), (1, "b")]),
+        ("two objects: a|a|b|b", [(0, "a"), (1, "a"), (0, "b"), (1, "b")]),
+        ("two objects, five calls", [(0, "a"), (1, "b"), (0, "b"), (1, "a"), (0, "empty")]),
+        ("a raising b", [(0, "a"), (0, "bad"), (0, "b")]),
+        ("raising a", [(0, "bad"), (0, "a")]),
+        ("raising a raising b a", [(0, "bad2"), (0, "a"), (0, "bad"), (0, "b"), (0, "a")]),
+        ("two objects: raising|a|a", [(0, "bad"), (1, "a"), (0, "a")]),
+        ("QCircuit object grown in place", [(0, "a", S0), (0, "a", dict(slot=0, add=r2_add)), (0, "a", dict(slot=0, add=[G("X", [1])]))]),
+        ("two objects, QCircuit object grown in place", [(0, "a", S0), (1, "a", dict(slot=0, add=[G("X", [2])])), (0, "a", S0)]),
+        ("result emptied by the caller, same circuit again", [(0, "a", SCR), (0, "a")]),
+        ("result emptied by the caller, same QCircuit object again", [(0, "b", dict(slot=0, scribble=True)), (0, "b", S0), (0, "a")]),
+        ("two objects: result emptied by the caller", [(0, "a", SCR), (1, "a"), (0, "b")]),
+    ]
+
+
+def history_cases():
+    """the same Decompiler object used for 2, 3, 5 circuits in a row, for every run shape: see history_shapes"""
+    B = G("Barrier", [])
+    out = []
+    runs = RUNS + [[G("I", [0]), G("X", [1])], [G("MCtrl", [0, 1, 2], n=2, g="X"), G("CX", [2, 0])]]
+    fixed = dict(empty=(3, []), empty1=(1, []), seps=(3, [SEPS[0], SEPS[1]]), nops=(3, [B, B]), one=(1, [G("X", [0])]))
+    for ri, r in enumerate(runs):
+        r2, r3 = runs[(ri + 3) % len(runs)], runs[(ri + 5) % len(runs)]
+        cs = dict(fixed)
+        cs["a"] = (3, r)
+        cs["b"] = (3, [SEPS[0]] + r2 + [B, SEPS[3]] + r)
+        cs["c"] = (5, [G("H", [4])] + remap(r3, (4, 2, 0)) + [G("CZ", [3, 4])] + remap(r, (1, 2, 3)),
+                   dict(names=circ.name_schemes(5)[("letters", "reversed-q", "shifted-q")[ri % 3]]) if ri % 2 else None)
+        cs["bad"] = (3, r + [SEPS[0], G("X", [3])])       # one good section, then a gate on a qubit that is not there
+        cs["bad2"] = (3, [G("CX", [3, 0])])
+        for label, steps in history_shapes([SEPS[0]] + r2):
+            out.append(mk_history(f"{label} / run shape {ri}", cs, steps))
+    # the demo of the missed bug; widths, names, shared gate objects, API-built circuits
+    da = (3, [G("X", [0]), G("CX", [0, 1]), G("H", [2]), G("CCX", [0, 1, 2])])
+    db = (3, [G("H", [0]), G("CX", [1, 2]), G("X", [1]), B, G("H", [1])])
+    out.append(mk_history("demo", dict(a=da, b=db), [(0, "a"), (0, "b")]))
+    out.append(mk_history("demo, 5 calls, 2 objects", dict(a=da, b=db), [(0, "a"), (1, "b"), (0, "b"), (1, "a"), (0, "a")]))
+    s = circ.with_ids(RUNS[6], 1)
+    sh = (3, s + [SEPS[0]] + s + [SEPS[6]] + s)
+    sub = dict(n=3, gates=RUNS[9])
+    api = api_case(dict(n=5, names=circ.name_schemes(5)["letters"], subs=[sub],
+                        steps=[dict(op="append_circuit", sub=0, qubits=[1, 2, 3]), dict(op="gate", g=G("H", [4])),
+                               dict(op="append_circuit", sub=0, qubits=[3, 4, 0])]))
+    api2 = api_case(dict(n=3, subs=[sub], steps=[dict(op="iadd", sub=0), dict(op="gate", g=SEPS[0]), dict(op="iadd_self")]))
+    for n in (10, 11, 16):
+        nm = circ.name_schemes(n)
+        w1 = (n, [G("X", [n - 1]), G("CX", [n - 1, 2]), G("H", [9]), G("MCX", [2, 3, n - 1, 0], n=3)])
+        w2 = (n, remap(RUNS[9], (n - 1, 2, n - 2)) + [G("H", [n - 1])] + remap(RUNS[6], (8, 1, n - 1)), dict(names=nm["words"]))
+        cs = dict(a=da, b=db, w1=w1, w2=w2, sh=sh, api=api, api2=api2, one=fixed["one"])
+        out.append(mk_history(f"widths {n} 3", cs, [(0, "w1"), (0, "a")]))
+        out.append(mk_history(f"widths 3 {n} 1 {n} named 3", cs, [(0, "b"), (0, "w1"), (0, "one"), (0, "w2"), (0, "a")]))
+        out.append(mk_history(f"named {n}, shared gate objects, api", cs, [(0, "w2"), (0, "sh"), (0, "api")]))
+        out.append(mk_history(f"api circuits and {n} qubits, two objects", cs, [(0, "api"), (1, "api2"), (0, "api2"), (1, "w2"), (0, "api")]))
+        out.append(mk_history(f"wide QCircuit object twice, grown ({n})", cs,
+                              [(0, "w1", dict(slot=0)), (0, "w1", dict(slot=0)), (0, "w1", dict(slot=0, add=[G("H", [0]), G("X", [n - 1])]))]))
+    return out
+
+
+def random_history_cases(rng, count):
+    """random histories: 2..5 calls (2, 3, 5 most often), 1..3 Decompiler objects, circuits from the random
+    generators of this file (narrow, shared gate objects, now and then 10..16 qubits / empty / raising), QCircuit
+    objects passed again and grown in place, results emptied by the caller"""
+    for k in range(count):
+        ncalls = rng.choice([2, 2, 3, 3, 3, 4, 5, 5])
+        ninst = rng.choice([1, 1, 2, 2, 3])
+        ncirc = rng.randint(1, ncalls)
+        cs = {}
+        for i in range(ncirc):
+            x = rng.random()
+            if x < 0.08:
+                c = (rng.randint(1, 4), [])
+            elif x < 0.18:
+                n, gs = next(random_cases(rng, 1))
+                c = (n, gs[:6] + [G("X", [n])] + gs[6:9])      # a gate on a qubit that is not there: the call raises
+            elif x < 0.28:
+                c = next(random_wide_cases(rng, 1))
+            elif x < 0.45:
+                c = next(random_shared_cases(rng, 1))
+            else:
+                c = next(random_cases(rng, 1))
+            cs[i] = c
+        steps, used_slots = [], {}
+        for j in range(ncalls):
+            key = rng.randrange(ncirc) if j >= ncirc else j
+            extra = {}
+            if rng.random() < 0.3:
+                if key in used_slots:
+                    extra["slot"] = key
+                    if rng.random() < 0.5:
+                        n = cs[key][0]
+                        extra["add"] = [circ.rand_gate(rng, n, kinds=["X", "CX", "H", "Barrier", "CCX", "T"]) for _ in range(rng.randint(1, 3))]
+                else:
+                    used_slots[key] = True
+                    extra["slot"] = key
+            elif key in used_slots and rng.random() < 0.6:
+                extra["slot"] = key
+            if rng.random() < 0.1:
+                extra["scribble"] = True
+            steps.append((rng.randrange(ninst), key, extra))
+        yield mk_history(f"random {k}", cs, steps)
+
+
+def container_verdicts(k):
+    """the result containers on their own: a new DecompilerResults is empty whatever happened to other ones, holds
+    exactly the sections appended to it, in order (len / index / iteration agree).  None or (what, info)"""
+    from qlasskit.decompiler import DecompiledSection, DecompilerResults
+
+    before = DecompilerResults()
+    r = DecompilerResults()
+    secs = [DecompiledSection([("g%d" % i, [i], None)], [], (i, i + 1)) for i in range(k)]
+    for s in secs:
+        r.append(s)
+    after = DecompilerResults()
+    for nm, o in (("created before the appends", before), ("created after the appends", after)):
+        if len(o) != 0 or list(o) != []:
+            return (f"a new DecompilerResults ({nm} to another one) is not empty", dict(len=len(o)))
+    if len(r) != k or [id(x) for x in r] != [id(x) for x in secs] or any(r[i] is not secs[i] for i in range(k)):
+        return (f"a DecompilerResults that got {k} sections does not hold exactly these, in order", dict(len=len(r)))
+    for i, s in enumerate(secs):
+        if s.index != (i, i + 1) or len(s.gates) != 1 or s.expressions != []:
+            return ("a DecompiledSection does not hold what it was built with", dict(section=i))
+    return None
+
+
+def check_containers(res):
+    for k in (0, 1, 2, 3, 5):
+        for rep in (1, 2):      # twice: state kept by the class or the module shows at the second round
+            case = dict(containers=dict(sections_appended=k, round=rep))
+            res.count(case, nontrivial=k > 0, bucket="result-containers")
+            try:
+                v = container_verdicts(k)
+            except Exception as e:  # noqa
+                v = (f"using the result containers raised {type(e).__name__}: {e}", {})
+            if v is not None:
+                res.violation(case, v[0], **v[1])
 
 
 def run(ctx: Ctx) -> Result:
@@ -575,17 +962,26 @@ def run(ctx: Ctx) -> Result:
         "circuits in which one gate object occurs at several positions / in several sections (built gate by gate and through "
         "qc += sub, append_circuit, qc += qc, repeat, +), every run shape on 10/11/12/16 qubits incl. user-chosen qubit "
         "names, random variants of both (wide circuits judged on all assignments of the qubits a section involves); "
-        "case = (n, gate list); non-trivial = at least one classical gate and at least two gates"
+        "histories: one Decompiler object used for 2, 3, 5 circuits in a row (same circuit again, same QCircuit object again, "
+        "different circuits / qubit counts / names, empty circuit in between, a call that raises in between, QCircuit object "
+        "grown in place between calls, result emptied by the caller), two or three Decompiler objects interleaved - every "
+        "call judged like a single case, compared with what a new Decompiler() returns, earlier results re-read after every "
+        "later call; random histories; "
+        "case = (n, gate list) (a call of a history: + history, call number); non-trivial = at least one classical gate "
+        "and at least two gates"
     )
     check_batch(ctx, res, boundary_cases(), "boundary")
     check_batch(ctx, res, sharing_cases(), "shared-objects")
     check_batch(ctx, res, wide_cases(), "wide")
+    check_containers(res)
+    check_histories(ctx, res, history_cases(), "history-calls")
     check_batch(ctx, res, list(strings_cases(alphabet(), 5 if ctx.thorough else 3)), "strings9")
     check_batch(ctx, res, list(strings_cases(alphabet(True), 4 if ctx.thorough else 2)), "strings11")
     check_batch(ctx, res, list(random_cases(rng, 12000 if ctx.thorough else 1500)), "random")
     check_batch(ctx, res, list(random_shared_cases(rng, 3000 if ctx.thorough else 400)), "random-shared")
     check_batch(ctx, res, list(random_api_cases(rng, 1500 if ctx.thorough else 150)), "random-api")
     check_batch(ctx, res, list(random_wide_cases(rng, 1500 if ctx.thorough else 150)), "random-wide")
+    check_histories(ctx, res, list(random_history_cases(rng, 2500 if ctx.thorough else 250)), "random-history-calls")
     res.exhaustive = True
     res.notes.append("gate strings over the fixed alphabets enumerated completely up to the stated length; "
                      "boundary patterns enumerated completely; random part sampled")
@@ -605,9 +1001,23 @@ def witness_fails(ctx: Ctx, f):
 def replay(ctx: Ctx, payload):
     first = payload.get("first") or {}
     case = first.get("case", {})
+    if "containers" in case:
+        rc = 0
+        for rep in (1, 2):
+            v = container_verdicts(case["containers"]["sections_appended"])
+            print(f"result containers, {case['containers']['sections_appended']} sections appended, round {rep}:",
+                  "as expected" if v is None else v[0])
+            rc = rc or (0 if v is None else 1)
+        return rc
     if "gates_json" not in case:
-        print("no failing input in this replay file (tie-broken record)")
-        return 2
+        ds = payload.get("correspondence_disagreements") or []
+        if ds and "gates_json" in ds[0].get("case", {}):
+            case = ds[0]["case"]
+        else:
+            print("no failing input in this replay file (tie-broken record)")
+            return 2
+    if "history" in case:
+        return replay_history(case["history"])
     n, gates = case["n"], case["gates_json"]
     opts = dict(names=case.get("names"), recipe=case.get("recipe"))
     print("replaying", json.dumps(case.get("gates")), "on", n, "qubits" +
@@ -615,10 +1025,43 @@ def replay(ctx: Ctx, payload):
           (f", qubit names {opts['names']}" if opts["names"] else ""))
     if case.get("same_gate_object_as_an_earlier_position"):
         print("positions holding a gate object of an earlier position:", case["same_gate_object_as_an_earlier_position"])
-    out = code_decompile(n, gates, opts)
-    print("code:", json.dumps(canon_out(n, out)))
-    v = judge(n, gates, out)
-    print("oracle:", "property holds" if v is None else v[0])
-    if v is not None:
-        print("expected:", json.dumps(v[1]))
-    return 0 if v is None else 1
+    rc = 0
+    for attempt in (1, 2):
+        # twice in this process, each time a new circuit and a new Decompiler(): a failure that needs an earlier call
+        # in the same process (state kept outside the Decompiler object) shows at the second
+        out = code_decompile(n, gates, opts)
+        print(f"code (call {attempt} in this process):", json.dumps(canon_out(n, out)))
+        v = judge(n, gates, out)
+        print("oracle:", "property holds" if v is None else v[0])
+        if v is not None:
+            print("expected:", json.dumps(v[1]))
+            rc = 1
+    return rc
+
+
+def replay_history(h):
+    print("replaying the history:", h["label"])
+    for i, c in enumerate(h["circuits"]):
+        print(f"  circuit {i}: {c['n']} qubits", json.dumps([[d["c"], d["w"]] for d in c["gates"]]),
+              ("names " + json.dumps(c["names"])) if c.get("names") else "", "(built through the composition API)" if c.get("recipe") else "")
+    calls = run_history(h)
+    hv = hist_verdicts(calls)
+    rc = 0
+    for k, (st, c) in enumerate(zip(h["steps"], calls)):
+        print(f"call {k}: Decompiler object {st['inst']}, circuit {st['circ']}" +
+              (f", QCircuit object kept in slot {st['slot']}" if st.get("slot") is not None else ", new QCircuit object") +
+              (f", after appending {json.dumps([[d['c'], d['w']] for d in st['add']])} to it" if st.get("add") else "") +
+              (", the caller empties the result afterwards" if st.get("scribble") else ""))
+        print("   code:", json.dumps(canon_out(c["n"], c["out"])))
+        v = None if malformed(c["n"], c["gates"]) else judge(c["n"], c["gates"], c["out"])
+        print("   oracle:", "gate on a missing qubit, not judged" if malformed(c["n"], c["gates"]) else
+              "property holds" if v is None else v[0])
+        if v is not None:
+            print("   expected:", json.dumps(v[1]))
+            rc = 1
+        for kk, what, info in hv:
+            if kk == k:
+                print("   oracle:", what)
+                print("   ", json.dumps({a: (canon_out(c["n"], b) if isinstance(b, dict) else b) for a, b in info.items()}))
+                rc = 1
+    return rc
